@@ -71,6 +71,7 @@ def Ff (fnOk : Bool) (self : String) : Expr → Bool
   | .arr es => FfList fnOk self es
   | .for_ _ init test incr body => Ff fnOk self init && Ff fnOk self test && Ff fnOk self incr && FfList fnOk self body
   | .call (.sym h) args => (h != self) && (h != "") && okHead h && FaList args
+  | .call f args => Ff false "" f && FaList args          -- a computed callee: evaluated like an operand
   | .fn ps rest body =>
     fnOk && okRest rest && decide (ps ++ rest.toList).Nodup && ps.all okParam && !body.isEmpty && FfList true "" body
   | .defn name ps rest body =>
@@ -137,6 +138,7 @@ whose last form resp. arms are in tail position; everything else as in `Ff true 
 statements before the last one and `for` loops may `break`/`continue` their own loops (`Fx [] self`). -/
 def Fz (ex : Bool) (self : String) : Expr → Bool
   | .call (.sym h) args => (h != "") && okHead h && FaList args && ((h != self) || FfList false self args)
+  | .call f args => Ff true self (.call f args)
   | .begin_ es => FzList ex self es
   | .cond arms d => FzArms ex self arms && Fz ex self d
   | .newScope es => !es.isEmpty && FzList ex self es
@@ -194,6 +196,21 @@ def FzArms (ex : Bool) (self : String) : List (Expr × Expr) → Bool
   | (p, b) :: r => Ff true self p && Fz ex self b && FzArms ex self r
 end
 
+/-- a call with a computed callee is in the fragment when callee and operands are operands of the fragment -/
+theorem ff_call_nonsym {fnOk : Bool} {self : String} {f : Expr} {args : List Expr} (hns : ∀ x, f ≠ .sym x) :
+    Ff fnOk self (.call f args) = (Ff false "" f && FaList args) := by
+  generalize hR : (Ff false "" f && FaList args) = R
+  cases f with
+  | sym x => exact absurd rfl (hns x)
+  | _ => rw [Ff] <;> first | exact hR | (intro _ hh; cases hh)
+
+theorem fz_call_nonsym {ex : Bool} {self : String} {f : Expr} {args : List Expr} (hns : ∀ x, f ≠ .sym x) :
+    Fz ex self (.call f args) = Ff true self (.call f args) := by
+  generalize hR : Ff true self (.call f args) = R
+  cases f with
+  | sym x => exact absurd rfl (hns x)
+  | _ => rw [Fz] <;> first | exact hR | (intro _ hh; cases hh)
+
 /-- the statements of F2 (resp. Fx) are statements of a body -/
 theorem fs_of_stmt {ex : Bool} {self : String} {e : Expr} (h : (if ex then Fx [] self e else Ff true self e) = true) :
     Fs ex self e = true := by
@@ -223,7 +240,7 @@ theorem fz_of_ff : ∀ (self : String) (e : Expr), Ff true self e = true → Fz 
       rw [Ff] at h; simp only [Bool.and_eq_true] at h
       rw [Fz]; simp only [Bool.and_eq_true, Bool.or_eq_true]
       exact ⟨⟨⟨h.1.1.2, h.1.2⟩, h.2⟩, Or.inl h.1.1.1⟩
-    | _ => simp [Ff] at h
+    | _ => rw [Fz] <;> first | exact h | (intro _ hh; cases hh)
   | self, .begin_ es, h => by rw [Ff] at h; rw [Fz]; exact fzList_of_ff self es h
   | self, .cond arms d, h => by
     rw [Ff] at h; simp only [Bool.and_eq_true] at h
